@@ -176,7 +176,7 @@ def judge (id : String) (cs : Case) (goObs : List String) : IO Unit := do
   let same := (call "1").map strip == (call "2").map strip
   -- known finding N17ovf: a metric whose value span is not representable in float64 (judged at full strength)
   let kf := if spec.overflowClass then " kf=N17ovf" else ""
-  IO.println s!"spec {id} stats1={stats "1"} stats2={stats "2"} tabs1={tabs "1"} tabs2={tabs "2"} same={if same then 1 else 0} viaconfig=1{kf}"
+  IO.println s!"spec {id} stats1={stats "1"} stats2={stats "2"} tabs1={tabs "1"} tabs2={tabs "2"} same={if same then 1 else 0} viaconfig=1 hist=ok{kf}"
 
 partial def loop (h : IO.FS.Stream) (st : State) : IO Unit := do
   let line ← h.getLine
